@@ -497,12 +497,13 @@ void do_insert(Ctx& c, size_t vi, const Item& it, bool qau) {
       if (s.memkey.empty() && newbits > 0) s.memkey = KEY_A;
     }
   } else {
-    const bool was_dirty = v.dirty_m;
-    if (was_dirty && v.key.empty()) v.key = KEY_B;
-    v.dirty_m = false;
-    if (s.is_mem) {
-      if (!was_dirty) { s.memkey = v.key; s.mem_dirty = false; }  // exact count written through
-      else if (s.memkey.empty()) s.memkey = v.key;                  // otherwise the memory keeps whatever was wrong with it before
+    if (v.dirty_m) {
+      // known finding B on the pinned tree (a stale count is stored and the dirty state is lost); a correct implementation
+      // stays dirty and leaves the count field of the memory alone
+      if (v.key.empty()) v.key = KEY_B;
+      if (s.is_mem && s.memkey.empty()) s.memkey = v.key;
+    } else if (s.is_mem && newbits > 0) {
+      s.memkey = v.key; s.mem_dirty = false;  // exact count written through (nothing needs writing when no bit changed)
     }
   }
 }
